@@ -44,6 +44,17 @@ callbacks may be the bound method, a lambda / local def / functools.partial that
 resolved through the module's imports (`from tempfile import mkstemp`); statements inside `finally` are located in
 every CFG copy.
 
+Second pass.  (1) Values chosen by a conditional expression / min / max (also nested, also inside arithmetic) are looked
+at as the branches they stand for (_kit_c13.choices_as_branches), so the chunk after post_seqnoincrease is a polynomial per
+path and "stays positive" is decided by its minimum over chunk, limit >= 1 or by the path's own conditions -- not by
+comparing with three reference spellings.  (2) What _load does "when the state file is missing / was read / held the
+marker" is decided on the feasible paths from the open() on (_kit_c13.RegionPaths: exceptional edges included,
+constants bound to locals propagated and branches they decide pruned), not by where a statement stands relative to
+the `except FileNotFoundError` handler: a presence flag set in the handler and tested later, an early return, a
+status string, a flag computed from the marker comparison are all the same paths.  The local the file is decoded
+into may be bound elsewhere too (None in the handler); every read of it must see the decoded content on every
+feasible path.
+
 Outside the property's fault model (crash points and clean stops), reported as a
 note only: if `_store()` raises (disk full, EIO) after `sequence_number_persisted`
 was advanced, the in-memory bound stays ahead of the file and the next chunk-1
@@ -61,6 +72,7 @@ from .c12 import (
 from ._kit_c13 import (
     qual, deep_resolve, rchain, full_resolve, path_parts, tail_expanded, DictStates, DictVal, arms, truth_under,
     key_read, key_reads_in, is_verbatim_read, field_assigns, recv_is, callable_target, unexpanded_helper_calls, _single_values, const_str,
+    choices_as_branches, RegionPaths, entry_constants, Token, const_eval, UNKNOWN,
 )
 
 R = Rules(
@@ -186,7 +198,9 @@ def b(ctx):
         ctx.ob("after the increment no path returns without post_seqnoincrease() having completed", ok, fi, n,
                detail=None if ok else "path: %s" % witness(cfg, nid, cfg.exit, cut_normal=posts))
 
-    pf = ctx.prog.func(FSC + ".post_seqnoincrease")
+    # conditional expressions / min / max in pure assignments are looked at as the branches they stand for, so that
+    # every value the chunk (or the bound) can take is a polynomial on a path of its own, with the condition as a fact
+    pf = choices_as_branches(ctx.prog, ctx.prog.func(FSC + ".post_seqnoincrease"))
     ctx.need(is_plain_sync(pf), "post_seqnoincrease is not a plain function")
     pcfg = cfg_of(pf)
     ctx.prog.func(FSC + "._store")  # anchor: a renamed _store is an analysis error, a missing call a violation
@@ -200,12 +214,8 @@ def b(ctx):
     paths = sym_paths(pf, {SEQ: "q", PERS: "P", CHUNK: "C"}, consts={LIMIT: "L"})
     normal = [q for q in paths if q.normal()]
     ctx.floor("normal paths of post_seqnoincrease", len(normal), 2)
-    grow = {"C": C, "2C": Poly.const(2) * C}
-    try:
-        grow["min"] = Normalizer().poly(ast.parse("min(2*C, L)", mode="eval").body)
-    except NormError:
-        pass
     nstore_paths = 0
+    uses_limit = False
     for q in normal:
         sc = [t for t in q.calls() if t[1] in store_calls]
         pst = q.stores(PERS)
@@ -226,8 +236,17 @@ def b(ctx):
         ctx.ob("post_seqnoincrease never moves the counter backwards", back is not None and back >= 0, pf, (q.stores(SEQ) or [(0, 0, 0, pf.node)])[-1][3],
                construct=stmt_text(q.stores(SEQ)[-1][3]) if q.stores(SEQ) else "post_seqnoincrease")
         cst = q.stores(CHUNK)
-        ctx.ob("the chunk stays positive: it is kept, doubled, or min(2*chunk, limit)", q.cp[CHUNK] in grow.values(), pf, cst[-1][3] if cst else pf.node,
-               detail="chunk after = %r" % q.cp[CHUNK], construct=stmt_text(cst[-1][3]) if cst else "post_seqnoincrease")
+        # Necessary condition: the chunk is >= 1 after the call whenever chunk and limit were >= 1 before (then the
+        # next store advances the bound past the counter again).  Decided on the value the chunk has on this path: a
+        # polynomial with non-negative coefficients over chunk (C) and limit (L) whose minimum over C, L >= 1 is >= 1
+        # (kept: C, doubled: 2*C, capped: L, either arm of min(2*C, L) however it is spelled), or a value the path's own
+        # conditions bound from below (`max(1, C // 2)`: the arm C // 2 is taken under 1 < C // 2).
+        chunk = q.cp[CHUNK]
+        lb = _min_over_positive(chunk, {"C", "L"})
+        ok = (lb is not None and lb >= 1) or _implied(_path_nf(q), Poly.const(0) - chunk, positive=("C", "L"))
+        ctx.ob("the chunk stays positive: it is kept, doubled, or capped by the limit", ok, pf, cst[-1][3] if cst else pf.node,
+               detail="chunk after = %r (C = chunk before, L = limit; conditions: %s)" % (chunk, _show_conds(q)), construct=stmt_text(cst[-1][3]) if cst else "post_seqnoincrease")
+        uses_limit = uses_limit or any(a == "L" for mono in chunk.t for a, _e in mono)
     ctx.ob("post_seqnoincrease has a path that stores", nstore_paths >= 1, pf, pf.node, construct="post_seqnoincrease")
     ctx.note("not decided (outside the crash/clean-stop fault model): when _store() raises after sequence_number_persisted was advanced, "
              "the in-memory bound stays ahead of the file and up to chunk-1 further numbers are issued uncovered")
@@ -256,24 +275,50 @@ def b(ctx):
     ctx.ob("every normal path of __init__ initialises the bound", must_complete(icfg, icfg.entry, _locs(icfg, [n for _, n in pst])), init, pst[0][1])
     later = [n for k, n in stores_to(init.node, SEQ, nested=False) if any(icfg.loc1(n) in icfg.reach({icfg.loc1(x)}) for _, x in pst)]
     ctx.ob("the counter is not changed in __init__ after the bound was taken from it", not later, init, later[0] if later else pst[0][1])
-    cst = [(v, n) for ch, v, n in fas if ch == CHUNK]
-    ctx.floor("stores to sequence_number_chunksize in __init__", len(cst), 1)
-    ctx.need(len(cst) == len(stores_to(init.node, CHUNK, nested=False)), "__init__ changes sequence_number_chunksize other than by plain assignment")
     a_ = init.node.args
     allp = a_.posonlyargs + a_.args
     defaults = dict(zip([x.arg for x in allp[len(allp) - len(a_.defaults):]], a_.defaults))
     defaults.update({k.arg: d_ for k, d_ in zip(a_.kwonlyargs, a_.kw_defaults) if d_ is not None})
-    for v, n in cst:
-        v = deep_resolve(init.node, v) if v is not None else None
-        ok = isinstance(v, ast.Name) and v.id in defaults and not writes_to_name(init.node, v.id)
-        val = None
-        if ok:
-            try:
-                val = norm.consteval(defaults[v.id])
-            except NormError:
-                val = None
-            ok = isinstance(val, int) and val >= 1
-        ctx.ob("the initial chunk is a constructor parameter whose default is a positive constant", ok, init, n, detail="default %r" % val)
+
+    def const_int(e):
+        """value of a constant expression, named module-level constants included"""
+        env = {}
+        for x in ast.walk(e):
+            if isinstance(x, ast.Name) and x.id not in env:
+                try:
+                    env[x.id] = ctx.prog.module_const(init.module.name, x.id)
+                except AnalysisError:
+                    pass
+        try:
+            return norm.consteval(e, env)
+        except NormError:
+            return None
+
+    def positive_start(field, label, what):
+        fst = [(v, n) for ch, v, n in fas if ch == field]
+        ctx.floor("stores to %s in __init__" % label, len(fst), 1)
+        ctx.need(len(fst) == len(stores_to(init.node, field, nested=False)), "__init__ changes %s other than by plain assignment" % label)
+        for v, n in fst:
+            v = deep_resolve(init.node, v) if v is not None else None
+            ok = isinstance(v, ast.Name) and v.id in defaults and not writes_to_name(init.node, v.id)
+            val = None
+            if ok:
+                val = const_int(defaults[v.id])
+                ok = isinstance(val, int) and not isinstance(val, bool) and val >= 1
+            elif v is not None:
+                # or a positive constant itself
+                val = const_int(v)
+                ok = isinstance(val, int) and not isinstance(val, bool) and val >= 1
+            ctx.ob("the initial %s is a constructor parameter whose default is a positive constant" % what, ok, init, n, detail="default %r" % val)
+
+    positive_start(CHUNK, "sequence_number_chunksize", "chunk")
+    if uses_limit:
+        # a capped chunk is positive because the cap is: same premise for the limit as for the start value, and nothing
+        # else in the class changes it
+        positive_start(LIMIT, "sequence_number_chunksize_limit", "chunk limit")
+        others = {f: hits for f, hits in field_writers(ctx.prog, "sequence_number_chunksize_limit", modules=[init.module.name]).items() if f != init.short}
+        ctx.ob("the chunk limit is set by the constructor only", not others, init, init.node, construct="writers of sequence_number_chunksize_limit",
+               detail="also written in %s" % ", ".join(sorted(others)) if others else None)
 
 
 # ---------------------------------------------------------------------------
@@ -551,30 +596,56 @@ class _Load:
     pass
 
 
-def _is_json_load_of(fi, v, f):
-    """v is json.load(f) or json.loads(f.read())"""
+def _is_json_load_of(fi, v, fnames, open_calls=()):
+    """v is json.load(F) or json.loads(F.read()), F being one of the names of the file object or the open call itself"""
     if not isinstance(v, ast.Call) or not v.args:
         return False
     q = qual(fi, v.func)
     a = v.args[0]
+
+    def is_file(x):
+        return (isinstance(x, ast.Name) and x.id in fnames) or any(x is o for o in open_calls)
+
     if q == "json.load":
-        return isinstance(a, ast.Name) and a.id == f
+        return is_file(a)
     if q == "json.loads":
         b = match("$f.read()", a)
-        return b is not None and isinstance(b["f"], ast.Name) and b["f"].id == f
+        return b is not None and is_file(b["f"])
     return False
 
 
+def _assign_pairs(fnode):
+    """(target, value, statement) of every plain binding, the parallel form `a, b = x, y` split"""
+    for n in walk_no_nested(fnode):
+        if isinstance(n, ast.Assign):
+            for t in n.targets:
+                if isinstance(t, (ast.Tuple, ast.List)) and isinstance(n.value, (ast.Tuple, ast.List)) and len(t.elts) == len(n.value.elts) \
+                        and not any(isinstance(x, ast.Starred) for x in list(t.elts) + list(n.value.elts)):
+                    for tt, vv in zip(t.elts, n.value.elts):
+                        yield tt, vv, n
+                else:
+                    yield t, n.value, n
+        elif isinstance(n, ast.AnnAssign) and n.value is not None:
+            yield n.target, n.value, n
+
+
 def _load_model(ctx, target_name):
-    """The place where _load (with helpers called in tail position expanded) reads <dir>/<target_name>:
-    `with open(<path>) as f: x = json.load(f)` for every spelling of the path that path_parts resolves."""
+    """The place where _load (with helpers called in tail position expanded) reads <dir>/<target_name>: an
+    `open(<path>)` for every spelling of the path that path_parts resolves, whose file object (bound by `with ... as f`
+    or `f = open(...)`, or the call itself) is handed to json.load / json.loads(f.read()) and the result bound to a
+    local.  The local may be bound elsewhere too (e.g. to None where the file is missing); what it holds where it is
+    read is decided per feasible path (see _load_paths)."""
+    cache = ctx.prog.__dict__.setdefault("_c13_load_model", {})
+    if target_name in cache:
+        return cache[target_name]
     m = _Load()
     m.fi = fi = _fn(ctx, FSC + "._load")
     m.cfg = cfg_of(fi)
     m.var = None
-    m.with_ = None
     m.dir = None
     m.open_call = None
+    m.load_stmt = m.load_value = None
+    m.token = Token("content of %s" % target_name)
     m.opens = []
     for c in calls_in(fi.node):
         if qual(fi, c.func) in ("open", "io.open") and c.args:
@@ -585,18 +656,132 @@ def _load_model(ctx, target_name):
         left = unexpanded_helper_calls(ctx.prog, fi)
         ctx.need(not left, "_load delegates to %s, which cannot be expanded in place; the part that reads %s may live there"
                  % (", ".join(sorted({stmt_text(c.func, 40) for c in left})), target_name))
-    for w in walk_no_nested(fi.node):
-        if not isinstance(w, ast.With):
-            continue
-        for it in w.items:
-            ce = it.context_expr
-            if any(ce is o for o in m.opens) and isinstance(it.optional_vars, ast.Name):
-                f = it.optional_vars.id
-                for n in walk_no_nested(w):
-                    if isinstance(n, ast.Assign) and len(n.targets) == 1 and isinstance(n.targets[0], ast.Name) and _is_json_load_of(fi, n.value, f):
-                        m.var, m.with_, m.open_call = n.targets[0].id, w, ce
-                        m.dir = path_parts(ctx.prog, fi, ce.args[0])[0]
+    parent = {}
+    for p_ in ast.walk(fi.node):
+        for ch in ast.iter_child_nodes(p_):
+            parent[id(ch)] = p_
+    loads = []
+    for o in m.opens:
+        par = parent.get(id(o))
+        scope, fnames = fi.node, set()
+        if isinstance(par, ast.withitem) and isinstance(par.optional_vars, ast.Name):
+            # `with open(..) as f`: f means this file inside the block (the name may be used for other files elsewhere)
+            scope = parent.get(id(par))
+            inner = {id(x) for x in ast.walk(scope)} - {id(scope)}
+            if not any(id(w) in inner for w in writes_to_name(fi.node, par.optional_vars.id)):
+                fnames.add(par.optional_vars.id)
+        elif isinstance(par, ast.Assign) and len(par.targets) == 1 and isinstance(par.targets[0], ast.Name) and len(writes_to_name(fi.node, par.targets[0].id)) == 1:
+            fnames.add(par.targets[0].id)
+        for t, v, st in _assign_pairs(scope):
+            if isinstance(t, ast.Name) and _is_json_load_of(fi, v, fnames, [o]):
+                loads.append((o, t.id, v, st))
+    if len(loads) == 1:
+        o, m.var, m.load_value, m.load_stmt = loads[0]
+        m.open_call = o
+        m.dir = path_parts(ctx.prog, fi, o.args[0])[0]
+    cache[target_name] = m
     return m
+
+
+# calls that cannot fail with FileNotFoundError: the error comes from resolving a path (open, stat, rename, ...), not
+# from decoding, converting or reading an object that is already open
+_NO_FNF_FUNCS = {"json.load", "json.loads", "int", "float", "str", "bool", "bytes", "len", "isinstance", "dict", "list", "tuple", "set", "repr",
+                 "min", "max", "os.path.join", "os.fspath"}
+_NO_FNF_METHODS = {"read", "readline", "readlines", "decode", "encode", "get", "items", "keys", "values", "strip", "split", "fileno", "close"}
+
+
+def _node_exprs(node):
+    a = node.ast
+    if a is None:
+        return []
+    if node.kind == "with":
+        return [it.context_expr for it in a.items]
+    if node.kind == "for":
+        return [a.iter]
+    if node.kind == "handler":
+        return []
+    return [a]
+
+
+def _fnf_calls(fi, node):
+    """the calls evaluated by the CFG node that may raise FileNotFoundError"""
+    out = []
+    for e in _node_exprs(node):
+        for c in walk_no_nested(e):
+            if not isinstance(c, ast.Call) or is_log_call(c):
+                continue
+            if qual(fi, c.func) in _NO_FNF_FUNCS:
+                continue
+            if isinstance(c.func, ast.Attribute) and c.func.attr in _NO_FNF_METHODS:
+                continue
+            out.append(c)
+    return out
+
+
+def _handler_classes(h):
+    if h.type is None:
+        return None
+    names = h.type.elts if isinstance(h.type, ast.Tuple) else [h.type]
+    return [chain(x) for x in names]
+
+
+def _load_paths(ctx, lm):
+    """Feasible paths of _load from the open() of the state file on (RegionPaths): constants bound to locals are
+    propagated, so that a presence flag set next to the json.load / in the FileNotFoundError handler and tested later
+    is the same as code in the `else` clause / the handler; the local the content is bound to holds lm.token where that
+    binding reaches.  An exceptional edge into a handler for FileNotFoundError only is followed from statements that can
+    raise that error (anything but decoding / reading an open file, see _NO_FNF_*)."""
+    if getattr(lm, "rp", None) is not None:
+        return lm.rp
+    fi, cfg = lm.fi, lm.cfg
+    on = cfg.loc1(lm.open_call)
+    lm.open_nid = on
+
+    def special(value, env, node):
+        return lm.token if value is lm.load_value else None
+
+    def exc_feasible(src, dst):
+        if dst.kind == "handler":
+            cls = _handler_classes(dst.ast)
+            if cls and all(c == "FileNotFoundError" for c in cls):
+                return bool(_fnf_calls(fi, src)) or src.kind == "raise"
+        return True
+
+    lm.rp = RegionPaths(fi, on, env0=entry_constants(fi, cfg, on), special=special, exc_feasible=exc_feasible)
+    lm.rp.paths()
+    ctx.need(not lm.rp.cut, "_load loops after opening the state file; the rule follows loop-free code there")
+    return lm.rp
+
+
+def _absent_before(lm, p, i, handlers):
+    """on path p, before position i, the open() of the state file failed into one of the given handlers"""
+    return any(p.took(lm.open_nid, h, "exc", before=i) for h in handlers)
+
+
+def _loaded_before(lm, p, i):
+    """on path p, before position i, the statement that decodes the state file completed"""
+    ln = set(lm.cfg.locate(lm.load_stmt))
+    return any(j < i and p.completed(j) for j in p.positions(ln))
+
+
+def _reads_see_file(ctx, lm):
+    """wherever _load reads the local the file content was bound to, it holds that content: on every feasible path"""
+    fi, cfg = lm.fi, lm.cfg
+    rp = _load_paths(ctx, lm)
+    uses = set()
+    for n in walk_no_nested(fi.node):
+        if isinstance(n, ast.Name) and n.id == lm.var and isinstance(n.ctx, ast.Load):
+            uses.update(cfg.locate(n))
+    for nid in uses:
+        if not cfg.is_reachable(nid):
+            continue
+        if nid in cfg.reach({cfg.entry}, avoid={lm.open_nid}, include_src=True):
+            return False  # read on a path that never opened the file
+        for p in rp.through({nid}):
+            for i in p.positions({nid}):
+                if p.envs[i].get(lm.var) is not lm.token:
+                    return False
+    return True
 
 
 def _reader_keys(ctx, m):
@@ -633,13 +818,15 @@ def _strip_int(v):
 def d(ctx):
     sm, (tdir, tname), entries = _writer_side(ctx)
     lm = _load_model(ctx, tname)
-    ctx.ob("_load reads the file _store renames onto (%s)" % tname, lm.var is not None, sm.fi, sm.renames[0], detail="no `with open(<dir>/%s) as f: x = json.load(f)` in _load" % tname)
+    ctx.ob("_load reads the file _store renames onto (%s)" % tname, lm.var is not None, sm.fi, sm.renames[0], detail="no `x = json.load(<open(<dir>/%s)>)` in _load" % tname)
     if lm.var is None:
         return
     lf = lm.fi
     ctx.ob("reader and writer use the same directory", same(full_resolve(ctx.prog, sm.fi, tdir), full_resolve(ctx.prog, lf, lm.dir)), lf, lm.open_call,
            detail="writer %s, reader %s" % (stmt_text(tdir), stmt_text(lm.dir)))
-    ctx.need(len(writes_to_name(lf.node, lm.var)) == 1, "the loaded object is rebound in _load")
+    # the local may be bound on other paths as well (None where the file is missing): what matters is that every read
+    # of it sees the decoded file
+    ctx.need(_reads_see_file(ctx, lm), "the local the state file is decoded into (%s) may hold something else where _load reads it" % lm.var)
     rkeys = _reader_keys(ctx, lm)
     ctx.need(None not in rkeys, "_load reads the persisted object with a non-constant key")
     wk, rk = set(entries), set(rkeys)
@@ -884,29 +1071,70 @@ def e(ctx):
     unkT, unkF = _marker_tests(ctx, lm, wkey)
     ctx.floor("branches of _load comparing the window entry with the marker", len(unkT), 1)
     ctx.floor("branches of _load comparing the window entry with the marker", len(unkF), 1)
-    fl = {True: set(), False: set()}
+    flag_stores = {}  # CFG node -> value expression
     for ch, v, n in field_assigns(lf.node):
         if ch != FLAG:
             continue
-        ctx.need(isinstance(v, ast.Constant) and isinstance(v.value, bool), "_load sets replay_window_persisted to a non-constant")
-        fl[v.value] |= _locs(lcfg, [n])
-    ctx.need(len(fl[True]) + len(fl[False]) == len(stores_to(lf.node, FLAG, nested=False)), "_load changes replay_window_persisted other than by assignment")
+        ctx.need(v is not None, "_load changes replay_window_persisted other than by assignment")
+        for nid in lcfg.locate(n):
+            flag_stores[nid] = v
+    ctx.need(len({id(v) for v in flag_stores.values()}) == len(stores_to(lf.node, FLAG, nested=False)), "_load changes replay_window_persisted other than by assignment")
     ifp = _locs(lcfg, mcalls(lf.node, "initialize_from_persisted"))
+    # Decided over the feasible paths of _load from the open() on (constants bound to locals propagated, exceptional
+    # edges included): what the flag is when _load returns is its last completed store on the path -- a constant, a
+    # local bound to one on that path, or a boolean expression over conditions the path has decided
+    # (`self.replay_window_persisted = received != "unknown"`); a window counts as restored when an
+    # initialize_from_persisted call completed after the comparison.
+    rp = _load_paths(ctx, lm)
+    normal = [p for p in rp.paths() if p.end in ("return", "fall")]
+    from ..paths import Path as _Path
+
+    def final_flag(p):
+        """True / False, or None when the path stores no flag or a value the path does not decide"""
+        for i in range(len(p.nodes) - 1, -1, -1):
+            if p.completed(i) and p.nodes[i] in flag_stores:
+                v = flag_stores[p.nodes[i]]
+                val = const_eval(v, p.envs[i])
+                if isinstance(val, bool):
+                    return val
+                if val is UNKNOWN:
+                    as_path = _Path(p.nodes, p.decisions, {}, p.end)
+                    tv = rp.pm.truth(v, as_path)
+                    return tv if tv is not None else rp.pm.truth(deep_resolve(lf.node, v, keep={lm.var}), as_path)
+                return None
+        return None
+
+    def stores_flag(p):
+        return any(p.completed(i) and p.nodes[i] in flag_stores for i in range(len(p.nodes)))
+
+    def restored_after(p, nid):
+        at = p.nodes.index(nid)
+        return any(i > at and p.completed(i) for i in p.positions(ifp))
+
+    def where(ps, bad):
+        w = [p for p in ps if bad(p)]
+        return None if not w else "on the path: %s" % rp.describe(w[0])
+
     for n, val in unkT:
         ctx.ob("the marker _load recognises is the one _store writes", val == marker, lf, n.ast, detail="writer %r, reader %r" % (marker, val))
     for n, val in unkF:
-        ok = bool(ifp) and must_complete(lcfg, n.id, ifp)
-        ctx.ob("a persisted window is restored through initialize_from_persisted", ok, lf, n.ast)
-        ok = bool(fl[True]) and must_complete(lcfg, n.id, fl[True]) and not (lcfg.reach({n.id}) & fl[False])
-        ctx.ob("a restored window sets replay_window_persisted = True (the file holds a real window until the first strike-out)", ok, lf, n.ast)
+        ps = [p for p in normal if n.id in p.nodes]
+        ok = bool(ifp) and bool(ps) and all(restored_after(p, n.id) for p in ps)
+        ctx.ob("a persisted window is restored through initialize_from_persisted", ok, lf, n.ast, detail=where(ps, lambda p: not restored_after(p, n.id)))
+        ok = bool(ps) and all(final_flag(p) is True for p in ps)
+        ctx.ob("a restored window sets replay_window_persisted = True (the file holds a real window until the first strike-out)", ok, lf, n.ast,
+               detail=where(ps, lambda p: final_flag(p) is not True))
     # missing file
     handlers = _nofile_handlers(lm, broad=True)
     ctx.floor("handlers for a missing sequence file in _load", len(handlers), 1)
     for hn in handlers:
         h = lcfg.nodes[hn].ast
-        ok = bool(fl[True]) and must_complete(lcfg, hn, fl[True]) and not (lcfg.reach({hn}) & fl[False])
-        ctx.ob("with no sequence file the flag is true, so the first strike-out writes the marker", ok, lf, h, construct="except %s" % (stmt_text(h.type) if h.type is not None else ""))
-    ctx.ob("every normal path of _load sets the flag", must_complete(lcfg, lcfg.entry, fl[True] | fl[False]), lf, lf.node, construct="_load")
+        ps = [p for p in normal if hn in p.nodes]
+        ok = bool(ps) and all(final_flag(p) is True for p in ps)
+        ctx.ob("with no sequence file the flag is true, so the first strike-out writes the marker", ok, lf, h, construct="except %s" % (stmt_text(h.type) if h.type is not None else ""),
+               detail=where(ps, lambda p: final_flag(p) is not True))
+    ok = must_complete(lcfg, lcfg.entry, set(flag_stores)) or (must_complete(lcfg, lcfg.entry, {lm.open_nid}) and all(stores_flag(p) for p in normal))
+    ctx.ob("every normal path of _load sets the flag", ok, lf, lf.node, construct="_load", detail=where(normal, lambda p: not stores_flag(p)))
 
 
 @R.clause("C13.f", "clean shutdown: _destroy sets flag and exact counter before _store, and stores before releasing the lock")
@@ -964,7 +1192,9 @@ def g_load_window(ctx):
     ctx.ob("_load opens %s" % tname, len(opens) == 1, fi, opens[0] if opens else fi.node, construct="_load: open(%s)" % tname)
     if len(opens) != 1:
         return
-    lm.open_call = opens[0]
+    ctx.ob("_load decodes what it opened into a local (json.load)", lm.var is not None, fi, opens[0])
+    if lm.var is None:
+        return
     nofile = _nofile_handlers(lm)
     ctx.ob("a missing state file is handled separately (FileNotFoundError)", len(nofile) == 1, fi, opens[0])
     inits = [c for c in calls_in(fi.node) if isinstance(c.func, ast.Attribute) and c.func.attr in ("initialize_empty", "initialize_from_freshlyseen", "initialize_from_persisted")]
@@ -974,13 +1204,27 @@ def g_load_window(ctx):
             and id(n) not in called]
     ctx.need(not refs, "_load takes a window initialiser as a value instead of calling it")
     ctx.floor("window initialisers in _load", len(inits), 2)
+    # "Only when no state file exists" is a statement about runs, not about where the call stands: it is decided on the
+    # feasible paths from the open() on (_load_paths).  A path has seen the file missing when the open() itself left
+    # along the exceptional edge into the FileNotFoundError handler; it has read the file when the decoding statement
+    # completed.  Whether the call then sits in the handler, after an early return guarded by a presence flag, or in a
+    # branch on `content is None` makes no difference.
+    rp = _load_paths(ctx, lm)
+    ctx.need([c for c in _fnf_calls(fi, cfg.nodes[lm.open_nid])] == [lm.open_call],
+             "the statement that opens the state file makes other calls that may fail with FileNotFoundError")
+    before_open = cfg.reach({cfg.entry}, avoid={lm.open_nid}, include_src=True)
     for c in inits:
-        nid = cfg.loc1(c)
-        in_nofile = any(cfg.dominates(h, nid) for h in nofile)
+        nids = [x for x in cfg.locate(c) if cfg.is_reachable(x)]
+        early = [x for x in nids if x in before_open]
+        hits = [(p, i) for p in rp.through(nids) for i in p.positions(nids)]
         if c.func.attr == "initialize_empty":
-            ctx.ob("an empty replay window is assumed only when no state file exists", in_nofile, fi, c)
+            bad = [(p, i) for p, i in hits if not _absent_before(lm, p, i, nofile) or _loaded_before(lm, p, i)]
+            ctx.ob("an empty replay window is assumed only when no state file exists", not early and not bad, fi, c,
+                   detail="reached without the file having been found missing: %s" % rp.describe(bad[0][0]) if bad else ("reached without opening the file" if early else None))
         elif c.func.attr == "initialize_from_persisted":
-            ctx.ob("the persisted window is restored only from a file that was read", not in_nofile and not any(nid in cfg.reach({h}) for h in nofile), fi, c)
+            bad = [(p, i) for p, i in hits if _absent_before(lm, p, i, nofile) or not _loaded_before(lm, p, i)]
+            ctx.ob("the persisted window is restored only from a file that was read", not early and not bad, fi, c,
+                   detail="reached without the file having been read: %s" % rp.describe(bad[0][0]) if bad else ("reached without opening the file" if early else None))
         else:
             ctx.ob("_load never marks a number as freshly seen", False, fi, c)
     direct = [n for ch, v, n in field_assigns(fi.node) if ch.rsplit(".", 1)[-1] in ("_index", "_bitfield")]
@@ -1157,3 +1401,39 @@ R.seed("C13.d", F_, "        return {\"index\": self._index, \"bitfield\": self.
 R.seed("C13.j", F_, "        self._index = persisted[\"index\"]\n        self._bitfield = persisted[\"bitfield\"]\n", "        self._index, self._bitfield = persisted[\"index\"] or 0, persisted[\"bitfield\"] or 0\n", "parallel assignment that coerces null to 0")
 R.seed("C13.f", F_, "        self._store()\n\n        del self.sender_key\n        del self.recipient_key\n\n        os.unlink(self.lockfile.lock_file)\n        self.lockfile.release()\n\n        self.lockfile = None\n",
        "        del self.sender_key\n        del self.recipient_key\n\n        lock = self.lockfile\n        self.lockfile = None\n        os.unlink(lock.lock_file)\n        lock.release()\n        self._store()\n", "lock released through a local alias before the final store")
+
+# second round: presence flag instead of handler / else placement, choices instead of min()
+_IFP_TRY = (
+    '            try:\n'
+    '                self.recipient_replay_window.initialize_from_persisted(received)\n'
+    '            except (ValueError, TypeError, KeyError):\n'
+    '                raise self.LoadError("Persisted replay window state was not understood")\n'
+)
+_LOAD_FLAG = (
+    '        present = True\n'
+    '        try:\n'
+    '            with open(os.path.join(self.basedir, "sequence.json")) as f:\n'
+    '                sequence = json.load(f)\n'
+    '        except FileNotFoundError:\n'
+    '            present = %s\n'
+    '        if %s:\n'
+    '            self.sender_sequence_number = 0\n'
+    '            self.recipient_replay_window.initialize_empty()\n'
+    '            self.replay_window_persisted = %s\n'
+    '            return\n'
+    '        self.sender_sequence_number = int(sequence["next-to-send"])\n'
+    '        received = sequence["received"]\n'
+    '        if received != "unknown":\n' + _IFP_TRY +
+    '        self.replay_window_persisted = %s\n'
+    '\n'
+)
+R.seed("C13.g", F_, _LOAD_TAIL_OLD, _LOAD_FLAG % ("False", "present", "True", 'received != "unknown"'),
+       "presence flag tested the wrong way round: an existing file is treated as a fresh context (empty window), a missing one is read")
+R.seed("C13.e", F_, _LOAD_TAIL_OLD, _LOAD_FLAG % ("False", "not present", "False", 'received != "unknown"'),
+       "presence-flag spelling, fresh context starts with the flag false: strike-outs are never recorded as unknown")
+R.seed("C13.e", F_, _LOAD_TAIL_OLD, _LOAD_FLAG % ("False", "not present", "True", 'received == "unknown"'),
+       "flag computed from the marker comparison, inverted: a restored window leaves the flag false")
+R.seed("C13.b", F_, "            self.sequence_number_chunksize = min(\n                self.sequence_number_chunksize * 2, self.sequence_number_chunksize_limit\n            )\n",
+       "            doubled = self.sequence_number_chunksize * 2\n            limit = self.sequence_number_chunksize_limit\n            self.sequence_number_chunksize = limit if limit < doubled else doubled - limit\n",
+       "conditional-expression spelling of the cap whose other arm can reach 0 or below")
+R.seed("C13.b", F_, "        sequence_number_chunksize_limit=10000,", "        sequence_number_chunksize_limit=0,", "limit 0: the capped chunk collapses to 0 and the bound stops advancing")
